@@ -43,6 +43,12 @@ CHECKS = {
  "C13": ("exhaustive enumeration of accepted statements x every public operation with a panic oracle",
          "Statements are the grammar-model corpus within the deviation bound plus an odd-shapes enumeration (16 function names x every argument list of <=2 (3) from 15 arguments x 5 positions, and ~50 hand-picked shapes: zero/negative intervals, fractional divisors, regex operators next to arithmetic, wildcards in odd places). On every accepted statement each of 7 statement-level operations and, for every SELECT inside it, 31 select-level operations (clone, walk, all rewrites, RewriteFields under 3 schemas, Reduce under 4 valuers, ConditionExpr, Eval, EvalType, names, intervals, SetTimeRange, …) runs on a freshly parsed copy with panics recovered.",
          "Oracle is 'no panic' only. Rewriters that return nil for call arguments are caller misuse and not exercised.", "3/C13"),
+ "C14": ("history exploration over (original, clone) pairs with fingerprint and address-set invariants",
+         "Roots are every SELECT the grammar model generates within the bound and every expression in them. For each root Clone/CloneExpr must be structurally identical (every field, also unexported) and share no mutable node (address sets of pointers and slice backing arrays). Every history of <=1 (thorough <=2) steps - one of 9 mutators (6 in-place rewrites, reflective poke of every scalar, slice replace/truncate/append, the interval memo) applied to the original or the clone - is replayed on a freshly parsed statement; the side not operated on must keep its fingerprint, and in the state reached 9 read-only operations must leave their receiver's fingerprint unchanged.",
+         "Fingerprint = astx canonical dump of every field. Immutable shared leaves (*regexp.Regexp, *time.Location) are exempt from the alias check.", "3/C14"),
+ "C15": ("exhaustive enumeration of password statements (full product over passwords, deviation-bounded layouts) with an exact-span oracle",
+         "Both password statement kinds x every password of length <=2 (3) over a 10-symbol alphabet (marker letters, space, both quotes, backslash, =, ;, tab, newline) x 8 user names x layouts (keyword case, every gap from none/space/tab/LF/CRLF/block comment/line comment) x contexts (alone, among other statements, two password statements, no space after ';'), counting only texts the parser accepts. Sanitize(text) must equal the text with exactly the password literal spans replaced by [REDACTED]; String() must contain [REDACTED] and no marker; every non-password statement within 1 deviation and hand-picked texts that contain the words must come back unchanged.",
+         "The expected span comes from the harness's own renderer. Passwords longer than the bound are not visited.", "3/C15"),
 }
 ALL = ["C%02d" % i for i in range(1, 21)]
 NOT_YET = "check not built yet in this revision of /verif (work in progress; see DESIGN.md section 3 for the planned bounded-exhaustive check)"
